@@ -30,13 +30,13 @@ def _validate_traces(ctx, recorded, tag):
                     detail="TLC cannot follow the recorded execution even on observables: %s" % ([(e["fields"], e["input"], e["axis"], e["index"]) for e in t["events"]],))
 
 
-def _replay_cfg(ctx, cfg, fmt="text", limit=None, record=0, perturb=None):
+def _replay_cfg(ctx, cfg, fmt="text", limit=None, record=0, perturb=None, variant=None):
     res = tlc.run("MC_DataImpl", cfg, tag=ctx.pid + "_" + cfg, timeout_s=1500)
     ctx.add_tlc(cfg, res, {})
     emitted = res.emitted
     if limit and len(emitted) > limit:
         emitted = random.Random(ctx.seed).sample(emitted, limit)
-    jobs = [(ds, seqs, fmt, False, perturb) for ds, seqs in c18replay.group(emitted)]
+    jobs = [(ds, seqs, fmt, False, perturb, variant) for ds, seqs in c18replay.group(emitted)]
     if record:
         # a sample of the behaviours is executed once more with the hooks on, and the recorded traces go to TLC
         rng = random.Random(ctx.seed + 1)
@@ -194,6 +194,9 @@ def run(ctx):
         _replay_cfg(ctx, "MC_DataImpl_C18EmitSingle", limit=3000, record=300)      # every input dimension aligned with the verified ones
         _replay_cfg(ctx, "MC_DataImpl_C18EmitAxes", limit=3000, record=300)        # slices of several derived dimensions with the same slice number
         _replay_cfg(ctx, "MC_DataImpl_C18EmitExtra", limit=3000)      # other fields as cache keys (two quantile levels that agree to two decimals)
+        # the same on NetCDF files that mark missing values with a _FillValue of their own (-9999-like): a stored quantile asked for BEFORE
+        # obs / fcst must not change how those are read (after seed C18-j)
+        _replay_cfg(ctx, "MC_DataImpl_C18EmitExtra", limit=1200, fmt="netcdf", variant={"nc_missing": "fill"})
         # ensemble members as fields; before every request a quantile that has to be derived from the members is asked for as well
         _replay_cfg(ctx, "MC_DataImpl_C18EmitEns", limit=1500, perturb="quantile-from-ensemble")
         # probabilities the files do not store (derived from the members), files whose members are missing at different cells: every ordered
